@@ -385,6 +385,17 @@ def callee_is(c, *paths):
 # REACH: call-graph reachability to a sink predicate, with witness chain
 # --------------------------------------------------------------------------------------------
 
+def reach_sinks_ctx(prog, roots, sink_calls_of):
+    """Context-sensitive variant: generic parameters bound at call sites narrow trait fan-out."""
+    out = []
+
+    def visit(fn, binding, chain):
+        for site, text in sink_calls_of(fn):
+            out.append((list(chain), fn, text, site))
+    prog.reach_ctx(roots, visit)
+    return out
+
+
 def reach_sinks(prog, roots, sink_calls_of, stop=lambda f: False):
     """sink_calls_of(fn) -> list of (Call|bb, text).  Returns list of (chain, fn, text, site)."""
     seen = prog.reach_fns(roots, stop)
